@@ -14,9 +14,9 @@ import (
 	"golang.org/x/text/language"
 	"pgregory.net/rapid"
 	"seehuhn.de/go/pdf"
-	"seehuhn.de/go/xmp"
 	"seehuhn.de/go/pdf/verif/internal/gen"
 	"seehuhn.de/go/pdf/verif/internal/vt"
+	"seehuhn.de/go/xmp"
 )
 
 // FindingSparseXRef is the id of the known finding "the Reader rejects a
@@ -31,26 +31,26 @@ var Versions = []pdf.Version{pdf.V1_0, pdf.V1_1, pdf.V1_2, pdf.V1_3, pdf.V1_4, p
 
 // Program is a JSON-serialisable write program.
 type Program struct {
-	Version       int       `json:"version"` // index into Versions
-	HumanReadable bool      `json:"human_readable"`
-	Seekable      bool      `json:"seekable"`
-	UserPW        string    `json:"user_pw,omitempty"`
-	OwnerPW       string    `json:"owner_pw,omitempty"`
-	Perm          uint32    `json:"perm,omitempty"`
-	ID            []gen.Hex `json:"id,omitempty"`
-	Title         string    `json:"title,omitempty"`
-	Author        string    `json:"author,omitempty"`
+	Version       int         `json:"version"` // index into Versions
+	HumanReadable bool        `json:"human_readable"`
+	Seekable      bool        `json:"seekable"`
+	UserPW        string      `json:"user_pw,omitempty"`
+	OwnerPW       string      `json:"owner_pw,omitempty"`
+	Perm          uint32      `json:"perm,omitempty"`
+	ID            []gen.Hex   `json:"id,omitempty"`
+	Title         string      `json:"title,omitempty"`
+	Author        string      `json:"author,omitempty"`
 	Custom        [][2]string `json:"custom,omitempty"`
-	PageLayout    string    `json:"page_layout,omitempty"`
-	PageMode      string    `json:"page_mode,omitempty"`
-	CatVersion    int       `json:"cat_version,omitempty"` // Catalog.Version: 0 = unset, else index into Versions + 1
-	PagesLate     bool      `json:"pages_late,omitempty"` // write the /Pages object last
-	MetaTitle     string    `json:"meta_title,omitempty"` // document-level XMP metadata (dc:title); "" = none
-	MetaPlain     bool      `json:"meta_plain,omitempty"` // MetadataStream.Plaintext
+	PageLayout    string      `json:"page_layout,omitempty"`
+	PageMode      string      `json:"page_mode,omitempty"`
+	CatVersion    int         `json:"cat_version,omitempty"` // Catalog.Version: 0 = unset, else index into Versions + 1
+	PagesLate     bool        `json:"pages_late,omitempty"`  // write the /Pages object last
+	MetaTitle     string      `json:"meta_title,omitempty"`  // document-level XMP metadata (dc:title); "" = none
+	MetaPlain     bool        `json:"meta_plain,omitempty"`  // MetadataStream.Plaintext
 	// SparseCapped counts the explicit references whose distance was cut
 	// down because of the open known finding C02-sparse-xref-stream.
-	SparseCapped int `json:"sparse_capped,omitempty"`
-	Actions       []Action  `json:"actions"`
+	SparseCapped int      `json:"sparse_capped,omitempty"`
+	Actions      []Action `json:"actions"`
 }
 
 // Action is one step of a program.
@@ -67,6 +67,7 @@ type Program struct {
 //	reput       Put(new ref, the very same Go value as used by action Src)
 //	reputstream Put(new ref, the very same *pdf.Stream object as used by an earlier putstream action)
 //	bulk        N Puts of small objects expanded from Seed (large cross-reference data)
+//	putbad      Put under object number 0 (Src == 0) or under the reference of an earlier entry: the Writer has to refuse it
 type Action struct {
 	Op      string   `json:"op"`
 	RefKind string   `json:"ref_kind,omitempty"` // alloc | pre | explicit
@@ -81,7 +82,7 @@ type Action struct {
 	Chunks  []int    `json:"chunks,omitempty"` // write chunk sizes (cyclic); empty = one Write
 	GiveLen bool     `json:"give_len,omitempty"`
 	During  []Action `json:"during,omitempty"`
-	Src     int      `json:"src,omitempty"` // reput: index of an earlier put action (modulo)
+	Src     int      `json:"src,omitempty"`  // reput: index of an earlier put action (modulo)
 	N       int      `json:"n,omitempty"`    // bulk: number of objects
 	Seed    uint64   `json:"seed,omitempty"` // bulk: expander seed
 }
@@ -104,9 +105,9 @@ func bulkObject(seed uint64, k int) gen.O {
 type Entry struct {
 	Ref      pdf.Reference
 	IsStream bool
-	Obj      gen.O   // value (non-stream)
-	Dict     gen.O   // caller keys of the stream dictionary
-	Data     []byte  // decoded stream data
+	Obj      gen.O  // value (non-stream)
+	Dict     gen.O  // caller keys of the stream dictionary
+	Data     []byte // decoded stream data
 	Filters  []string
 	InObjStm bool // written through WriteCompressed (may still be a plain object when object streams are off)
 	Deferred bool // issued while a stream was open
@@ -122,11 +123,14 @@ type Result struct {
 	WriterErr error  // first error returned by a Writer call (nil for an accepted program)
 	ErrAt     string // which call failed
 	Mutated   error  // set if a caller-owned value was modified by the Writer
-	IDUsed    [][]byte
-	Writes    int // number of Write calls the sink saw
-	Seeks     int
-	MaxChain  int
-	LengthVia map[string]int
+	// BadRefused / BadAccepted count the "putbad" actions the Writer refused
+	// (as it should) and accepted.
+	BadRefused, BadAccepted int
+	IDUsed                  [][]byte
+	Writes                  int // number of Write calls the sink saw
+	Seeks                   int
+	MaxChain                int
+	LengthVia               map[string]int
 }
 
 // Sink is the destination of a program run.  Failing sinks for C19 implement
@@ -386,6 +390,26 @@ func (p *Program) Run(sink io.Writer) *Result {
 		switch a.Op {
 		case "alloc":
 			pending = append(pending, w.Alloc())
+		case "putbad":
+			// A Put the Writer has to refuse: object number 0 (the head of
+			// the free list; also what a forgotten Alloc leaves in a zero
+			// Reference), or a number that has been written already.  The
+			// refusal leaves the Writer usable.  (Not generated while a stream
+			// is open: the Put is deferred then, and its refusal surfaces as
+			// the error of the stream's Close.)  Should the Writer accept
+			// it, the object is recorded like any other and the file is
+			// judged as it stands.
+			ref := pdf.NewReference(0, a.Gen)
+			if a.Src > 0 && len(res.Entries) > 0 {
+				ref = res.Entries[(a.Src-1)%len(res.Entries)].Ref
+			}
+			val := a.Obj.PDF()
+			if err := w.Put(ref, val); err == nil {
+				res.BadAccepted++
+				res.Entries = append(res.Entries, &Entry{Ref: ref, Obj: *a.Obj, Deferred: inStream})
+			} else {
+				res.BadRefused++
+			}
 		case "put":
 			ref := getRef(a)
 			val := a.Obj.PDF()
@@ -641,16 +665,17 @@ func (p *Program) Cipher() string {
 
 // Opts configures the program generator.
 type Opts struct {
-	MaxActions    int  // default 12
-	NoEncryption  bool // C20
-	NoCompressed  bool // C20: no object streams
-	MaxData       int  // largest stream body (default 70000)
-	ForbidHeaders bool // C20: no line-initial "N G obj" inside strings and stream data
-	SmallObjects  bool // keep object trees small
-	MaxDelta      uint32 // if > 0: largest distance of an explicit object number (each skipped number costs a 20-byte xref line)
-	AllowBulk     bool // allow "bulk" actions (hundreds to thousands of small objects)
-	IgnoreSparseFinding bool // do not cut sparse numbering down for xref-stream files (checks which never use the library's Reader)
-	AllowSparse   bool // allow explicit object numbers 70000 above the allocated ones (files of > 1 MB with xref tables)
+	MaxActions          int    // default 12
+	NoEncryption        bool   // C20
+	NoCompressed        bool   // C20: no object streams
+	MaxData             int    // largest stream body (default 70000)
+	ForbidHeaders       bool   // C20: no line-initial "N G obj" inside strings and stream data
+	SmallObjects        bool   // keep object trees small
+	MaxDelta            uint32 // if > 0: largest distance of an explicit object number (each skipped number costs a 20-byte xref line)
+	NoBadPuts           bool   // do not generate "putbad" actions (Puts the Writer has to refuse)
+	AllowBulk           bool   // allow "bulk" actions (hundreds to thousands of small objects)
+	IgnoreSparseFinding bool   // do not cut sparse numbering down for xref-stream files (checks which never use the library's Reader)
+	AllowSparse         bool   // allow explicit object numbers 70000 above the allocated ones (files of > 1 MB with xref tables)
 }
 
 var bodyWords = [][]byte{[]byte("endstream"), []byte("\nendstream"), []byte("\r\nendstream\n"), []byte("endobj"),
@@ -881,6 +906,14 @@ func Gen(o Opts) *rapid.Generator[Program] {
 				}
 			}
 			a.Op = rapid.SampledFrom(ops).Draw(t, "op")
+			if !o.NoBadPuts && !inStream && rapid.IntRange(0, 24).Draw(t, "bad") == 0 {
+				a.Op = "putbad"
+				a.Src = rapid.SampledFrom([]int{0, 0, 1, 2, 5}).Draw(t, "badsrc") // 0: object number 0
+				a.Gen = rapid.SampledFrom([]uint16{0, 0, 3, 65535}).Draw(t, "badgen")
+				ob := drawObj("obj")
+				a.Obj = &ob
+				return a
+			}
 			if o.AllowBulk && !inStream && rapid.IntRange(0, 39).Draw(t, "bulk") == 0 {
 				a.Op = "bulk"
 				a.N = rapid.SampledFrom([]int{300, 1200, 1200, 4000}).Draw(t, "bulkn")
